@@ -162,6 +162,7 @@ class Sampled:
     pass
 
 
+RETAINED = []       # (returned object, copy of its numbers, description): re-verified at the end of the run (G8)
 MUTATIONS = []      # (class name, attribute, N) for every stored array whose bytes changed during a sample() call
 
 
@@ -208,6 +209,11 @@ def call_sample(dist, N, rng):
     except Exception as e:  # noqa
         s, err = None, type(e).__name__ + ": " + str(e)[:100]
     after = global_state_fingerprint()
+    if s is not None:
+        try:
+            RETAINED.append((s, np.array(values(s), copy=True), type(dist).__name__ + f" N={N}"))
+        except Exception:
+            pass
     snap1 = snapshot(dist)
     for k, v in snap0.items():
         if k in snap1 and v is not None and not (snap1[k] == v or (v != v and snap1[k] != snap1[k])):   # None -> value: a lazily filled cache
@@ -309,20 +315,55 @@ def hessian_from_logpdf(dist, center, h=1.0):
     return H, grad
 
 
-def affine_oracle(dist, offset, B, key, desc, ctx, singular=False, tol=1e-7, Hfallback=None):
+def affinity_check(dist, offset, B, key, desc, ctx, tol):
+    """a draw must be an AFFINE function of the normal block: for random non-integer dyadic xi (several columns, one
+    call) the draws must be offset + B xi, with (offset, B) read off from xi = 0, e_1, …"""
+    target = getattr(dist, "L", dist)          # _LogVar wraps a Lognormal: compare in log space
+    logspace = hasattr(dist, "L")
+    rsx = np.random.RandomState(B.shape[1] * 7919 + 13)
+    blocks = []
+
+    def plan(method, shape, k):
+        if method not in ("randn", "standard_normal") or len(shape) != 2:
+            return None
+        z = (2 * rsx.randint(-12, 12, size=shape) + 1) / 8.0      # odd multiples of 1/8: never integers
+        blocks.append(z)
+        return z
+    rng = Script(plan)
+    s, err, _ = call_sample(target, 3, rng)
+    if err is not None or not blocks or rng.leaked():
+        return 0
+    Z = np.vstack(blocks)
+    if Z.shape != (B.shape[1], 3):
+        return 0
+    X = values(s)
+    if logspace:
+        if not np.all(X > 0):
+            return 0
+        X = np.log(X)
+    pred = offset[:, None] + B @ Z
+    if X.shape != pred.shape or not np.allclose(X, pred, rtol=tol, atol=tol * max(1.0, float(np.abs(pred).max()))):
+        ctx.fail(key, desc, "draws are an affine function of the normal block: sample(xi) = sample(0) + B xi for non-integer xi",
+                 {"xi": Z.tolist()[:6], "draws": X.tolist()[:6], "affine_prediction": pred.tolist()[:6]},
+                 "the normal block is altered (truncated / cast / partly ignored) before it is used")
+        return 1
+    return 0
+
+
+def affine_oracle(dist, offset, B, key, desc, ctx, singular=False, tol=1e-7, Hfallback=None, h=1.0):
     """the affine map xi -> offset + B xi has mean `offset` and covariance B Bᵀ; the log-density of the
     same object is quadratic with Hessian -H and stationary point m: demand grad logpdf(offset) = 0 and
     (B Bᵀ) H = I  (singular H: H (B Bᵀ) H = H)."""
     n = len(offset)
-    H, g = hessian_from_logpdf(dist, offset)
-    fails = 0
+    H, g = hessian_from_logpdf(dist, offset, h)
+    fails = affinity_check(dist, offset, B, key, desc, ctx, max(tol, 1e-9) if not singular else 1e-6)
     if not np.all(np.isfinite(H)) and hasattr(dist, "_logupdf"):
         # e.g. DIA-stored sqrtprec with bands: the normalising constant is computed from the raw DIA data (padding
         # zeros -> log 0); the un-normalised log-density is still what the object reports for the shape of the law
         class _U:
             def __init__(self, d): self.d = d
             def logpdf(self, x): return self.d._logupdf(x)
-        H, g = hessian_from_logpdf(_U(dist), offset)
+        H, g = hessian_from_logpdf(_U(dist), offset, h)
         ctx.extra_cov["oracle_used_unnormalised_density"] = ctx.extra_cov.get("oracle_used_unnormalised_density", 0) + 1
     if not np.all(np.isfinite(H)):
         if Hfallback is None:
@@ -332,8 +373,10 @@ def affine_oracle(dist, offset, B, key, desc, ctx, singular=False, tol=1e-7, Hfa
         g = np.zeros(n)
         ctx.extra_cov.setdefault("oracle_density_nonfinite", 0)
         ctx.extra_cov["oracle_density_nonfinite"] += 1
+    # work in units of the probing step (h = 1 unless the matrix was scaled): H h², C / h², g h are dimensionless
+    H, g, B = H * h * h, g * h, B / h
     scale = max(1.0, float(np.abs(H).max()))
-    if np.abs(g).max() > tol * scale * max(1.0, float(np.abs(offset).max())):
+    if np.abs(g).max() > tol * scale * max(1.0, float(np.abs(offset / h).max())):
         ctx.fail(key, desc, "gradient of the object's log-density vanishes at the mean of the draws (draw at xi = 0)",
                  {"offset": offset.tolist()[:8], "grad_logpdf_at_offset": g.tolist()[:8]},
                  "mean of the draws is not the mean implied by the log-density")
@@ -435,7 +478,8 @@ def run_gaussian(ctx, cuqi, thorough):
     bands = ["upperbi", "lowerbi", "tridiag", "full"]
     for fmt in SPARSE_FORMATS:
         cases.append((int(rint(rs, 3, 6)), "sqrtprec", "upperbi!", True, "vector", fmt))
-        cases.append((int(rs.choice([74, 76, 78])), "sqrtprec", str(rs.choice(["upperbi", "tridiag"])) + "!", True, "vector", fmt))
+        if thorough or fmt in ("dia", "csr", "coo"):
+            cases.append((int(rs.choice([74, 76, 78])), "sqrtprec", str(rs.choice(["upperbi", "tridiag"])) + "!", True, "vector", fmt))
         for _ in range(3 * ctx.scale):
             cases.append((int(rint(rs, 2, 6)), str(rs.choice(["sqrtprec", "sqrtcov", "cov", "prec"])),
                           str(rs.choice(bands)) + "!", True, str(rs.choice(["vector", "scalar"])), fmt))
@@ -1931,7 +1975,8 @@ def run_layouts(ctx, cuqi, thorough):
                     cases.append((form, layout, kind, int(rint(rs, 2, 6))))
     for layout in ("C", "F", "Tview"):          # spectral roots `(V*sqrt(w)).T` above the dense/sparse switch
         cases.append(("cov", layout, "tridiag", 76)); cases.append(("prec", layout, "lowerbi", 77))
-        cases.append(("sqrtprec", layout, "tridiag", 76))
+        if thorough or layout != "C":
+            cases.append(("sqrtprec", layout, "tridiag", 76))
     lines, metas = [], []
     for (form, layout, kind, n) in cases:
         M = gen_matrix(rs, kind, n)
@@ -2223,3 +2268,285 @@ def run(ctx):   # noqa: F811
                  "bytes changed during sample()", "sampling modifies the distribution object")
     ctx.extra_cov["stored_state_snapshots"] = "every sample() call of the run"
     del MUTATIONS[:]
+
+
+# ============================================================================= part 5: generic input classes
+def odd_plan(seed):
+    """scripted draws that are never integers (odd multiples of 1/8; uniforms in (0,1))"""
+    rsx = np.random.RandomState(seed)
+
+    def plan(method, shape, k):
+        if method in ("uniform", "random_sample", "rand", "beta"):
+            return (2 * rsx.randint(0, 32, size=shape) + 1) / 64.0
+        if method in ("gamma", "standard_gamma", "exponential", "standard_exponential", "lognormal", "chisquare"):
+            return (2 * rsx.randint(0, 24, size=shape) + 1) / 8.0
+        return (2 * rsx.randint(-12, 12, size=shape) + 1) / 8.0
+    return plan
+
+
+def retype(a, form):
+    """same numbers, other array type (G1 / G7); None when the form does not apply"""
+    from cuqi.array import CUQIarray
+    a = np.asarray(a, dtype=float)
+    integral = bool(np.all(a == np.round(a)))
+    if form in ("int64", "int32"):
+        return a.astype(form) if integral else None
+    if form == "float32":
+        return a.astype(np.float32) if np.all(a.astype(np.float32) == a) else None
+    if form == "cuqiarray":
+        return CUQIarray(a.copy()) if a.ndim == 1 else None
+    if form == "matrix":
+        return np.matrix(a) if a.ndim == 2 else None
+    if form == "negstride":
+        return a[::-1].copy()[::-1] if a.ndim == 1 else np.ascontiguousarray(a[::-1, ::-1])[::-1, ::-1]
+    if form == "list":
+        return a.tolist()
+    if form == "F":
+        return np.asfortranarray(a) if a.ndim == 2 else None
+    return None
+
+
+def run_generic(ctx, cuqi, thorough):
+    import scipy.sparse as sp
+    from cuqi.distribution import Gaussian, GMRF, Lognormal, Normal, Gamma, InverseGamma, Beta, Laplace, Uniform, Cauchy
+    from cuqi.geometry import Continuous1D, Continuous2D, Discrete
+    rs = np.random.RandomState(ctx.seed + 510)
+
+    # ---------------------------------------------------------------- (a) optional arguments passed positionally
+    zoo = family_zoo(cuqi, rs)
+    for fam, mk, dim in zoo:
+        try:
+            with quiet():
+                D = mk()
+        except Exception:
+            continue
+        for N in (1, 3):
+            desc = {"family": fam, "dim": dim, "N": N, "call": "sample(N, rng)  [generator passed positionally]"}
+            key = f"positional-rng:{fam}"
+            ctx.case("positional-rng", desc)
+            before = global_state_fingerprint()
+            try:
+                with quiet():
+                    a = D.sample(N, np.random.RandomState(77)); b = D.sample(N, np.random.RandomState(77)); c = D.sample(N, rng=np.random.RandomState(77))
+                rec = Script(odd_plan(5))
+                with quiet():
+                    d = D.sample(N, rec)
+                err = None
+            except Exception as e:
+                err = type(e).__name__ + ": " + str(e)[:80]
+            untouched = before == global_state_fingerprint()
+            if err is not None:
+                ctx.fail(key, desc, "a sample", err, "a generator passed positionally is not accepted"); continue
+            for s_ in (a, b, c, d):
+                RETAINED.append((s_, np.array(values(s_), copy=True), f"{fam} positional"))
+            if not untouched:
+                ctx.fail(key, desc, "global numpy random state untouched when a generator is given (positionally)", "changed", "the given generator is dropped; the global stream is used")
+            if not (np.array_equal(values(a), values(b)) and np.array_equal(values(a), values(c))):
+                ctx.fail(key, desc, "sample(N, gen) is a deterministic function of the generator state and equals sample(N, rng=gen)",
+                         {"positional_1": values(a).tolist(), "positional_2": values(b).tolist(), "keyword": values(c).tolist()}, "the positional generator is not used")
+            if len(rec.calls) == 0 and not rec.leaked():
+                ctx.fail(key, desc, "the given generator is consulted", "no call reached it", "the positional generator is not used")
+
+    # ---------------------------------------------------------------- (b) same numbers, other array types
+    forms = ["int64", "int32", "float32", "cuqiarray", "matrix", "negstride", "list", "F"]
+    geoms = [lambda n: None, lambda n: Continuous1D(np.linspace(0, 1, n)), lambda n: Discrete([f"v{i}" for i in range(n)]),
+             lambda n: Continuous2D((2, n // 2)) if n % 2 == 0 else Continuous1D(n)]
+
+    def compare_typed(key, desc, make_typed, make_plain, n, logspace=False, known_n1_key=None):
+        """draws (N = 1 and N = 4, non-integer scripted draws) of the typed object vs the float64 object; wrapping"""
+        try:
+            with quiet():
+                A = make_typed(); Bp = make_plain()
+                assert int(A.dim) == n and int(Bp.dim) == n
+        except Exception as e:
+            ctx.case("typed-refused", {**desc, "error": type(e).__name__}, nontrivial=False)
+            return None
+        for N in (1, 4):
+            ra, rb = Script(odd_plan(9)), Script(odd_plan(9))
+            s1, e1, u1 = call_sample(A, N, ra); s2, e2, u2 = call_sample(Bp, N, rb)
+            ctx.case("typed-input", {**desc, "N": N})
+            if e1 is not None or e2 is not None:
+                if e1 is not None and e2 is None:
+                    ctx.case("typed-refused", {**desc, "error": e1}, nontrivial=False)
+                continue
+            X1, X2 = values(s1), values(s2)
+            if X1.shape != X2.shape or not np.allclose(X1, X2, rtol=1e-6 if "float32" in key else 1e-10, atol=1e-6 if "float32" in key else 1e-12):
+                ctx.disagree(key, {**desc, "N": N}, X2.tolist(), X1.tolist(), "draws for the same numbers given in another array type vs float64 ndarray")
+                ctx.fail(key, {**desc, "N": N}, "draws equal those of the object built from float64 ndarrays holding the same numbers (same generator output)",
+                         {"typed": X1.tolist(), "float64": X2.tolist(), "generator_output": [np.asarray(c[1]).tolist() if False else c[0] for c in ra.calls]},
+                         "the type / dtype of a parameter array changes the draws")
+            for d_, g_ in wrap_oracle(cuqi, A, N, s1):
+                ctx.fail(known_n1_key if (N == 1 and known_n1_key and "entries" in str(g_)) else key, {**desc, "N": N}, d_, g_,
+                         "one draw must be a parameter array with the DISTRIBUTION's geometry (not a parameter's), several draws a Samples with it")
+        return A
+
+    for rep in range(2 * ctx.scale):
+        for form_m in forms:
+            for pform in ("sqrtprec", "sqrtcov", "cov", "prec"):
+                n = int(rs.choice([2, 3, 4, 6]))
+                kind = str(rs.choice(["vector", "lower", "upper", "full", "diag2d", "sparse"]))
+                if kind == "vector":
+                    M = np.array(rs.choice([1.0, 2.0, 4.0] if pform in ("sqrtprec", "sqrtcov") else [1.0, 4.0, 16.0], size=n))
+                else:
+                    M = gen_matrix(rs, "lowerbi" if kind == "sparse" else kind if kind != "diag2d" else "diag", n)
+                    M = np.round(M)
+                    M[np.diag_indices(n)] = np.where(np.diag(M) == 0, 2.0, np.diag(M))
+                    if pform in ("cov", "prec"):
+                        M = M @ M.T
+                mean = rint(rs, -3, 3, size=n).astype(float)
+                Mt = retype(M, form_m)
+                mform = str(rs.choice(["int64", "cuqiarray", "float32", "list", "negstride"]))
+                mt = retype(mean, mform)
+                if kind == "sparse":
+                    if form_m not in ("int64", "int32", "float32"):
+                        continue
+                    Mt = sp.csr_matrix(M.astype(form_m)).asformat(str(rs.choice(["csr", "csc", "dia", "coo"])))
+                if Mt is None:
+                    continue
+                geo = geoms[int(rs.randint(len(geoms)))](n)
+                kw = {} if geo is None else {"geometry": geo}
+                desc = {"family": "Gaussian", "form": pform, "dim": n, "matrix": kind, "matrix_type": form_m, "mean_type": type(mt).__name__ + ":" + str(getattr(mt, "dtype", "")),
+                        "geometry": repr(geo), "value": M.tolist(), "mean": mean.tolist()}
+                compare_typed(f"typed:Gaussian:{pform}:{kind}:{form_m}:mean-{mform}", desc,
+                              lambda: Gaussian(mt if mt is not None else mean.copy(), **{pform: Mt}, **kw),
+                              lambda: Gaussian(mean.copy(), **{pform: (sp.csr_matrix(M) if kind == "sparse" else M.copy())}, **kw), n)
+    # GMRF / Lognormal means and covariances, iid parameters
+    for form_m in ["int64", "int32", "float32", "cuqiarray", "negstride", "list"]:
+        for rep in range(ctx.scale):
+            n = 4
+            mean = rint(rs, -2, 2, size=n).astype(float)
+            mt = retype(mean, form_m)
+            if mt is None:
+                continue
+            for bc in ("zero", "neumann"):
+                for geo in (None, Continuous2D((2, 2)), Continuous1D(np.linspace(0, 1, n))):
+                    kw = {} if geo is None else {"geometry": geo}
+                    desc = {"family": "GMRF", "bc": bc, "mean_type": form_m, "geometry": repr(geo), "mean": mean.tolist()}
+                    compare_typed(f"typed:GMRF:{bc}:mean:{form_m}", desc, lambda: GMRF(mt, 4.0, bc_type=bc, **kw), lambda: GMRF(mean.copy(), 4.0, bc_type=bc, **kw), n,
+                                  known_n1_key=("wrap:gmrfNeumann:N1" if bc == "neumann" else None))
+            cov = np.array(rs.choice([1.0, 4.0, 16.0], size=n))
+            ct = retype(cov, form_m if form_m != "cuqiarray" else "int64")
+            for geo in (None, Continuous2D((2, 2))):
+                kw = {} if geo is None else {"geometry": geo}
+                desc = {"family": "Lognormal", "mean_type": form_m, "geometry": repr(geo), "mean": (mean / 2).tolist(), "cov": cov.tolist()}
+                m2 = retype(mean, form_m)
+                compare_typed(f"typed:Lognormal:{form_m}", desc, lambda: Lognormal(m2, ct if ct is not None else cov, **kw), lambda: Lognormal(mean.copy(), cov.copy(), **kw), n)
+            iid = {"normal": (Normal, [mean, np.array([1.0, 2.0, 4.0, 2.0])]), "gamma": (Gamma, [np.array([1.0, 2.0, 3.0, 2.0]), np.array([1.0, 2.0, 4.0, 2.0])]),
+                   "laplace": (Laplace, [mean, 2.0]), "cauchy": (Cauchy, [mean, np.array([1.0, 2.0, 4.0, 2.0])]),
+                   "uniform": (Uniform, [mean, mean + np.array([1.0, 2.0, 4.0, 2.0])]), "beta": (Beta, [np.array([1.0, 2.0, 3.0, 2.0]), np.array([2.0, 2.0, 1.0, 3.0])]),
+                   "invgamma": (InverseGamma, [np.array([2.0, 3.0, 4.0, 3.0]), mean, np.array([1.0, 2.0, 4.0, 2.0])])}
+            for fam, (cls, pars) in iid.items():
+                typed = [(retype(p_, form_m) if not np.isscalar(p_) else (int(p_) if form_m.startswith("int") else p_)) for p_ in pars]
+                if any(t is None for t in typed):
+                    continue
+                for geo in (None, Continuous2D((2, 2))):
+                    kw = {} if geo is None else {"geometry": geo}
+                    desc = {"family": fam, "param_type": form_m, "geometry": repr(geo), "params": [np.asarray(p_).tolist() for p_ in pars]}
+                    compare_typed(f"typed:{fam}:{form_m}", desc, lambda: cls(*typed, **kw), lambda: cls(*[np.array(p_, dtype=float) if not np.isscalar(p_) else float(p_) for p_ in pars], **kw), n)
+
+    # ---------------------------------------------------------------- (c) extreme scales (tolerance-based decisions)
+    lines, metas = [], []
+    for sc in (1e-12, 1e-9, 1e-6, 1e6, 1e9, 1e12):
+        for pform in ("sqrtprec", "sqrtcov"):
+            for kind in ("upper", "lower", "full", "upperbi", "vector", "sparse-upperbi"):
+                if rs.rand() > (1.0 if thorough else 0.6) and not (pform == "sqrtprec" and kind == "upper"):
+                    continue
+                n = int(rint(rs, 2, 5))
+                if kind == "vector":
+                    M0 = np.array(rs.choice([0.5, 2.0, 4.0], size=n))
+                else:
+                    M0 = gen_matrix(rs, kind.replace("sparse-", ""), n)
+                M = M0 * sc
+                val = sp.csr_matrix(M) if kind.startswith("sparse") else M
+                desc = {"family": "Gaussian", "form": pform, "dim": n, "matrix": kind, "scale": sc, "unscaled_value": M0.tolist()}
+                try:
+                    with quiet():
+                        G = Gaussian(np.zeros(n), **{pform: val})
+                        R = G.sqrtprec
+                        Rd = dense(R)
+                except Exception as e:
+                    ctx.case("scale-refused", {**desc, "error": type(e).__name__}, nontrivial=False); continue
+                r = Script(unit_plan(n)); s_, e_, u_ = call_sample(G, n + 1, r)
+                upper = np.abs(np.triu(Rd, 1))
+                tol_class = (not sp.issparse(R)) and upper.max() > 0 and upper.max() <= 1e-8
+                key = f"scale:Gaussian:{pform}:" + ("stored-upper-entries-below-1e-8" if tol_class else kind)
+                cols = np.hstack([np.zeros((n, 1)), np.eye(n)]).T
+                lines.append(f"gauss {1 if sp.issparse(R) else 0} 0 {qm(Rd.tolist())} {qm(cols.tolist())}")
+                metas.append(dict(key=key, desc=desc, G=G, n=n, s=s_, e=e_, Rd=Rd, sc=sc, pform=pform))
+    outs = ctx.lean.drive(lines)
+    for m, out in zip(metas, outs):
+        key, desc, n, Rd = m["key"], m["desc"], m["n"], m["Rd"]
+        ctx.case("scale", desc)
+        if m["e"] is not None or out.startswith(("err", "bad")):
+            if (m["e"] is not None) != out.startswith("err"):
+                ctx.disagree(key, desc, out[:60], m["e"], "refusal")
+            continue
+        S = values(m["s"])
+        Sm = np.array([[float(x) for x in row] for row in pm(out.split(" ", 1)[1])]).T
+        rscale = float(np.abs(Rd).max())                    # draws scale like 1/rscale: compare dimensionless numbers
+        if S.shape != Sm.shape or not np.allclose(S * rscale, Sm * rscale, rtol=1e-9, atol=1e-9):
+            ctx.disagree(key, desc, (Sm * rscale).tolist(), (S * rscale).tolist(), "draws x |sqrtprec|max for unit normal vectors")
+        if S.shape == (n, n + 1):
+            off = S[:, 0].copy(); B = S[:, 1:] - off[:, None]
+            # oracle 1 (implementation only): the perturbation solves sqrtprec p = e, relatively
+            RB = Rd @ B
+            if not np.allclose(RB, np.eye(n), rtol=1e-8, atol=1e-8):
+                ctx.fail(key, desc, "sqrtprec · (draw(e_k) − draw(0)) = e_k for every k (relative 1e-8)", {"sqrtprec_times_B": RB.tolist()},
+                         "the solver selected for this scale does not solve the system (a tolerance test decides the structure)")
+            # oracle 2: density of the same object, probed with a step matched to the scale
+            affine_oracle(m["G"], off, B, key, desc, ctx, tol=1e-6, h=1.0 / rscale)
+
+    # ---------------------------------------------------------------- (d) returned arrays do not alias the object (G3)
+    for fam, mk, dim in zoo[:40]:
+        try:
+            with quiet():
+                D = mk()
+        except Exception:
+            continue
+        desc = {"family": fam, "dim": dim}
+        ctx.case("alias", desc)
+        s1, e1, _ = call_sample(D, 1, np.random.RandomState(3)); s3, e3, _ = call_sample(D, 3, np.random.RandomState(4))
+        if e1 or e3:
+            continue
+        keep1, keep3 = values(s1).copy(), values(s3).copy()
+        snap0 = snapshot(D)
+        try:
+            a1 = np.asarray(s1); a3 = np.asarray(s3.samples)
+            if a1.flags.writeable and a1.ndim > 0:
+                a1[...] = 12345.0
+            if a3.flags.writeable:
+                a3[...] = -777.0
+        except Exception:
+            pass
+        RETAINED[:] = [r_ for r_ in RETAINED if r_[0] is not s1 and r_[0] is not s3]
+        snap1 = snapshot(D)
+        changed = [k for k in snap0 if k in snap1 and snap0[k] is not None and not (snap0[k] == snap1[k] or snap0[k] != snap0[k])]
+        t1, _, _ = call_sample(D, 1, np.random.RandomState(3)); t3, _, _ = call_sample(D, 3, np.random.RandomState(4))
+        if changed or t1 is None or t3 is None or not (np.array_equal(values(t1), keep1) and np.array_equal(values(t3), keep3)):
+            ctx.fail(f"alias:{fam}", desc, "writing into a returned sample changes neither the distribution nor later draws", {"changed_attributes": changed},
+                     "returned arrays alias internal state")
+
+
+_run_part5 = run
+
+
+def run(ctx):   # noqa: F811
+    del RETAINED[:]
+    _run_part5(ctx)
+    cuqi = import_cuqi()
+    run_generic(ctx, cuqi, ctx.tier == "thorough")
+    # G8: every sample object returned during the whole run still holds the numbers it held when it was returned
+    bad = 0
+    for (obj, copy, what) in RETAINED:
+        try:
+            now = values(obj)
+            same = now.shape == copy.shape and np.array_equal(now, copy, equal_nan=True)
+        except Exception:
+            same = False
+        if not same:
+            bad += 1
+            if bad <= 3:
+                ctx.fail("retained-output:" + what.split()[0], {"returned_by": what}, "an array returned by sample() keeps its values while later calls are made",
+                         "values changed after it was returned", "later calls overwrite earlier results (shared buffers / views)")
+    ctx.extra_cov["retained_outputs_reverified"] = len(RETAINED)
+    del RETAINED[:]
